@@ -30,11 +30,50 @@ def build(_exp=None):
 use crate::essential_types::{predicate::{Predicate, Node}, solution::{Solution, SolutionIndex, SolutionSet, Mutation}, Key, PredicateAddress, Word, ContentAddress, Value};
 use crate::vm::{Gas, Memory}; use crate::ext::{vm_error, asm::FromBytesError};
 use std::collections::{BTreeMap, HashMap, HashSet}; use std::sync::Arc; use crate::*;
-broadcast use crate::spec_from_is_from;""")
+broadcast use {crate::spec_from_is_from, crate::key_model_slot_ref, crate::key_model_slot, crate::key_model_key, crate::key_model_ca};""")
     for c in ('MAX_PREDICATE_DATA', 'MAX_SOLUTIONS', 'MAX_STATE_MUTATIONS', 'MAX_VALUE_SIZE', 'MAX_KEY_SIZE'):
         so.item('const ' + c)
     for e in ('InvalidSolutionSet', 'InvalidSolution', 'KvError', 'InvalidSetStateMutations'):
         so.item('enum ' + e)
     so.fn('check_value_size', F('check_value_size', ensures='r is Ok <==> value@.len() <= 10000', props=('C16', 'C04')))
     so.fn('check_key_size', F('check_key_size', ensures='r is Ok <==> value@.len() <= 1000', props=('C16', 'C04')))
+
+    so.spec('''
+// C16/C04: the documented mutation limits of a solution set
+pub open spec fn slot_of(set: SolutionSet, i: int, j: int) -> (ContentAddress, Key) {
+    (set.solutions@[i].predicate_to_solve.contract, set.solutions@[i].state_mutations@[j].key) }
+// the slots of the mutations that precede position (i, j) in iteration order
+pub open spec fn before(i2: int, j2: int, i: int, j: int) -> bool { i2 < i || (i2 == i && j2 < j) }
+pub open spec fn seen_ok(set: SolutionSet, keys: Set<(&ContentAddress, &Key)>, i: int, j: int) -> bool {
+    (forall|i2: int, j2: int| mut_ix(set, i2, j2) && before(i2, j2, i, j) ==>
+        keys.contains((&set.solutions@[i2].predicate_to_solve.contract, &set.solutions@[i2].state_mutations@[j2].key))
+        && (#[trigger] set.solutions@[i2].state_mutations@[j2]).key@.len() <= 1000 && set.solutions@[i2].state_mutations@[j2].value@.len() <= 10000)
+    && (forall|k: (&ContentAddress, &Key)| keys.contains(k) ==> exists|i2: int, j2: int| mut_ix(set, i2, j2) && before(i2, j2, i, j)
+        && *k.0 == set.solutions@[i2].predicate_to_solve.contract && *k.1 == #[trigger] set.solutions@[i2].state_mutations@[j2].key)
+    && (forall|i2: int, j2: int, i3: int, j3: int| mut_ix(set, i2, j2) && mut_ix(set, i3, j3) && before(i2, j2, i, j) && before(i3, j3, i, j) && (i2 != i3 || j2 != j3)
+        ==> #[trigger] slot_of(set, i2, j2) != #[trigger] slot_of(set, i3, j3)) }
+pub open spec fn mut_ix(set: SolutionSet, i: int, j: int) -> bool { 0 <= i < set.solutions@.len() && 0 <= j < set.solutions@[i].state_mutations@.len() }
+pub open spec fn mutations_ok(set: SolutionSet) -> bool {
+    crate::essential_types::solution::sum_mut_lens(set.solutions@) <= 1000
+    && (forall|i: int, j: int| mut_ix(set, i, j) ==> (#[trigger] set.solutions@[i].state_mutations@[j]).key@.len() <= 1000
+            && set.solutions@[i].state_mutations@[j].value@.len() <= 10000)
+    // at most one mutation per slot (contract, key) in the whole set
+    && (forall|i: int, j: int, i2: int, j2: int| mut_ix(set, i, j) && mut_ix(set, i2, j2) && (i != i2 || j != j2)
+            ==> #[trigger] slot_of(set, i, j) != #[trigger] slot_of(set, i2, j2)) }
+''')
+    so.fn('check_set_state_mutations', F('check_set_state_mutations', ensures='r is Ok <==> mutations_ok(*set)',
+        loops={0: {'iter_name': 'its', 'invariant': '''crate::essential_types::solution::sum_mut_lens(set.solutions@) <= 1000, its.seq().len() == set.solutions@.len(), (forall|k: int| 0 <= k < its.seq().len() ==> *(#[trigger] its.seq()[k]) == set.solutions@[k]),
+                    seen_ok(*set, mut_keys@, its.index@ as int, 0)'''},
+               1: {'iter_name': 'itm', 'invariant': '''crate::essential_types::solution::sum_mut_lens(set.solutions@) <= 1000, its.seq().len() == set.solutions@.len(), (forall|k: int| 0 <= k < its.seq().len() ==> *(#[trigger] its.seq()[k]) == set.solutions@[k]),
+                    0 <= its.index@ < set.solutions@.len(), *solution == set.solutions@[its.index@ as int], itm.seq().len() == solution.state_mutations@.len(), (forall|k: int| 0 <= k < itm.seq().len() ==> *(#[trigger] itm.seq()[k]) == solution.state_mutations@[k]),
+                    seen_ok(*set, mut_keys@, its.index@ as int, itm.index@ as int)''',
+                   'head_proof': '''let i = its.index@ as int; let j = itm.index@ as int;
+                    assert(0 <= j < itm.seq().len()); assert(mutation == itm.seq()[j]); assert(*mutation == set.solutions@[i].state_mutations@[j]); assert(mut_ix(*set, i, j));'''}},
+        hints=[('return Err(InvalidSetStateMutations::MultipleMutationsForSlot(', 'before', '''let i = its.index@ as int; let j = itm.index@ as int;
+                    let k = (&solution.predicate_to_solve.contract, &mutation.key);
+                    assert(mut_keys@.contains(k));
+                    let (i2, j2) = choose|i2: int, j2: int| mut_ix(*set, i2, j2) && before(i2, j2, i, j)
+                        && *k.0 == set.solutions@[i2].predicate_to_solve.contract && *k.1 == #[trigger] set.solutions@[i2].state_mutations@[j2].key;
+                    assert(slot_of(*set, i2, j2) == slot_of(*set, i, j));''')],
+        props=('C16', 'C04', 'C06')))
     return u
